@@ -91,6 +91,55 @@ def dictionaries(ctx, lvl, exe, have_driver):
                       dict(disagreements=dis[:3], broken_obligations=["correspondence kernel<->ideal dictionaries lvl%d" % lvl]), found=False)
 
 
+def even_isogenies(ctx, lvl, exe):
+    """id2iso_ideal_to_isogeny_even_dlogs on ideals of norm 2^k for EVERY k (level 1) / stratified incl. all k in [56, 80] (levels 3, 5, quick):
+    length = k, returned dlogs = 2^(f-k)·w with w an odd multiple of the kernel vector, kernel point of exact order 2^k on E0"""
+    L = vlib.LEVELS[lvl]
+    p, fmax = L["p"], L["f"]
+    F = Fp2(p)
+    E0 = Mont(F, (0, 0))
+    rng = ctx.rng.fork("c13even%d" % lvl)
+    if lvl == 1 or not ctx.quick:
+        ks = list(range(1, fmax + 1))
+    else:
+        ks = sorted(set([1, 2, 3, fmax, fmax - 1] + list(range(56, 81)) + list(range(120, 136)) + [4 + rng.below(fmax - 5) for _ in range(10)]))
+    ops, meta = [], []
+    for k in ks:
+        N = 1 << k
+        v = (rng.below(N) | 1, rng.below(N)) if rng.below(2) else (rng.below(N), rng.below(N) | 1)
+        v = (v[0] % N, v[1] % N)
+        ops += ["k2i %x %x %x" % (k, v[0], v[1]), "i2iso"]
+        meta.append((k, v))
+    rc, out, err = vlib.run_c([exe], ops)
+    for i, (k, v) in enumerate(meta):
+        ctx.case("L%d:even-isogeny:k=%d" % (lvl, k))
+        rep = dict(level=lvl, ops=ops[2 * i:2 * i + 2], results=out[2 * i:2 * i + 2] if len(out) > 2 * i + 1 else out[2 * i:], stderr=(err[-600:] if len(out) <= 2 * i + 1 else ""),
+                   how="drv_id2iso level %d: feed the two ops" % lvl)
+        if len(out) <= 2 * i + 1:
+            ctx.violation("c13:L%d:ideal_to_isogeny_even:crash" % lvl, "id2iso_ideal_to_isogeny_even_dlogs crashed on an ideal of norm 2^k (k = %d)" % k, rep)
+            return
+        head, kx = out[2 * i + 1].split(" | ")
+        hw = head.split()
+        length, d = hx(hw[0]), (sint(hw[1]) % (1 << fmax), sint(hw[2]) % (1 << fmax))
+        N = 1 << k
+        sh = fmax - k
+        bad = []
+        if length != k:
+            bad.append("isog.length = %d, expected k = %d" % (length, k))
+        if d[0] % (1 << sh) or d[1] % (1 << sh):
+            bad.append("returned dlogs are not multiples of 2^(f-k)")
+        else:
+            w = ((d[0] >> sh) % N, (d[1] >> sh) % N)
+            if not ((w[0] | w[1]) & 1) or (w[0] * v[1] - w[1] * v[0]) % N:
+                bad.append("returned dlogs / 2^(f-k) are not an odd multiple of the kernel vector")
+        K = pt(kx.split())
+        if K is None or E0.x_order_pow2(K, fmax) != k:
+            bad.append("kernel point does not have exact order 2^k")
+        if bad:
+            ctx.violation("c13:L%d:ideal_to_isogeny_even:%s" % (lvl, "k>=63" if k >= 63 else "k<63"), "id2iso_ideal_to_isogeny_even_dlogs on an ideal of norm 2^%d: %s" % (k, "; ".join(bad)), dict(rep, failures=bad))
+            return
+
+
 def isogenies(ctx, lvl, exe, nideals):
     L = vlib.LEVELS[lvl]
     p, fmax = L["p"], L["f"]
@@ -202,6 +251,7 @@ def run(ctx):
         exe = ctx.cc_harness(os.path.join(HARNESS, "drv_id2iso.c"), os.path.join(ctx.tmp, "drv_id2iso_l%d" % lvl), lvl, extra=["-I" + HARNESS])
         nb = len(ctx.violations)
         dictionaries(ctx, lvl, exe, have_driver)
+        even_isogenies(ctx, lvl, exe)
         isogenies(ctx, lvl, exe, plan[lvl][0 if ctx.quick else 1])
         ctx.obligation("oracle: dictionaries / find_uv / image bases at level %d" % lvl, len(ctx.violations) == nb, "")
     return dict(level="proof", rule="one case = one kernel vector (level, f, parity class) through both dictionaries, or one ideal (norm size, original / equivalent) through find_uv and the evaluation")
